@@ -33,16 +33,39 @@ def gen_case(rng, tier):
             if rng.random() < 0.8:
                 d[m[0]] = {l: rng.choice([True, False, None]) for l in lnls if rng.random() < 0.85}
         diags.append(d)
-    return {"graph": g, "mods": mods, "diags": diags}
+    # host: the unilateral model under test is a leaf of a composite model whose modalities are set through the composite
+    host = rng.choice([None, None, None, "bilateral", "bilateral", "midline"])
+    return {"graph": g, "mods": mods, "diags": diags, "host": host}
+
+
+def _leaves(case, comp):
+    if case.get("host") == "bilateral":
+        return [comp.ipsi, comp.contra]
+    return [comp.ext.ipsi, comp.ext.contra, comp.noext.ipsi, comp.noext.contra, comp.unknown.ipsi, comp.unknown.contra]
 
 
 def impl_fn(case):
-    m = impl.build_uni(case)
-    q0 = lambda mm: (mm.observation_matrix(), [mm.get_modality(x[0]).confusion_matrix for x in case["mods"]])  # noqa: E731
-    impl.run_primes(m, case, q0, [impl.prime_with_flipped_kinds, impl.prime_modality_order])
-    impl.prime_inplace_modality_edit(m, case, q0)     # last: set_modality would replace the edited objects
+    if case.get("host"):
+        c0 = {k: v for k, v in case.items() if k != "mods"}
+        c0["dists"] = {}
+        comp = impl.build_bilateral(c0) if case["host"] == "bilateral" else impl.build_midline(c0)
+        for name, spec, sens, kind in case["mods"]:
+            comp.set_modality(name, spec, sens, kind)                  # through the composite
+        qc = lambda mm: [leaf.observation_matrix() for leaf in _leaves(case, mm)]  # noqa: E731
+        impl.run_primes(comp, case, qc, [impl.prime_with_flipped_kinds, impl.prime_modality_order])
+        leaves = _leaves(case, comp)
+        m = leaves[-1]
+        q0 = lambda mm: (mm.observation_matrix(), [mm.get_modality(x[0]).confusion_matrix for x in case["mods"]])  # noqa: E731
+        impl.prime_inplace_modality_edit(m, case, q0)
+        extra = [leaf.observation_matrix().tolist() for leaf in leaves[:-1]]
+    else:
+        m = impl.build_uni(case)
+        q0 = lambda mm: (mm.observation_matrix(), [mm.get_modality(x[0]).confusion_matrix for x in case["mods"]])  # noqa: E731
+        impl.run_primes(m, case, q0, [impl.prime_with_flipped_kinds, impl.prime_modality_order])
+        impl.prime_inplace_modality_edit(m, case, q0)     # last: set_modality would replace the edited objects
+        extra = []
     out = {"O": m.observation_matrix().tolist(), "obs_list": np.asarray(m.obs_list).reshape(len(m.obs_list), -1).tolist(),
-           "conf": [m.get_modality(x[0]).confusion_matrix.tolist() for x in case["mods"]]}
+           "conf": [m.get_modality(x[0]).confusion_matrix.tolist() for x in case["mods"]], "leafO": extra}
     sl = m.graph.state_list
     dp = []
     for d in case["diags"]:
@@ -81,6 +104,10 @@ def compare(case, obs, val):
     if d:
         return {"observable": "observation_matrix()", **d,
                 "statement": "entry = prod over modalities and LNLs of confusion entries (C06_observation_entries)"}
+    for j, lo in enumerate(o.get("leafO", [])):
+        d = first_diff(lo, fracs(Om))
+        if d:
+            return {"observable": f"observation_matrix() of leaf #{j} of the {case.get('host')} host", **d}
     for k, (ca, cm) in enumerate(zip(o["conf"], confm)):
         d = first_diff(ca, fracs(cm))
         if d:
@@ -95,6 +122,8 @@ def compare(case, obs, val):
 
 def candidates(case):
     out = []
+    if case.get("host"):
+        out.append({**copy.deepcopy(case), "host": None})
     for k in range(len(case["mods"])):
         c = copy.deepcopy(case)
         name = c["mods"][k][0]
@@ -137,7 +166,7 @@ def run(ctx: Ctx, a_ok: bool):
     ctx.cone = ["Observation.confusion_matrix", "Observation.generate_observation", "Observation.obs_list",
                 "Observation.diagnosis_prob"]
     ctx.rule = ("random graphs (1-3 LNLs, binary/trinary) x 0-3 modalities (clinical/pathological; spec/sens from "
-                "{0,0.5,1} U k/16 U doubles, spec != sens mostly) x 3 partial diagnoses; non-trivial iff >=1 modality with "
+                "{0,0.5,1} U k/16 U doubles, spec != sens mostly) x 3 partial diagnoses x host (the model itself, or the leaves of a Bilateral / Midline whose modalities are set through the composite); non-trivial iff >=1 modality with "
                 "spec,sens strictly inside (0,1) and spec != sens")
     n = 100 if ctx.tier == "quick" else 700
     cases = [gen_case(ctx.rng, ctx.tier) for _ in range(n)]
@@ -146,7 +175,8 @@ def run(ctx: Ctx, a_ok: bool):
         ctx.count(c, nt, f"base{c['graph']['base']}-lnls{len(gen.lnls_of(c['graph']))}-mods{len(c['mods'])}")
     run_standard(ctx, cases, impl_fn, coq_expr, compare, IMPORTS, candidates,
                  sig_fn=lambda c, mm: {"class": "Unilateral", "call": str(mm.get("observable"))},
-                 call_fn=lambda c, mm: "Unilateral(graph); set_modality(...) for mods; " + str(mm.get("observable")),
+                 call_fn=lambda c, mm: (f"{c.get('host')} host (modalities set through the composite), leaf model; " if c.get("host")
+                                       else "Unilateral(graph); ") + "set_modality(...) for mods; " + str(mm.get("observable")),
                  broken="correspondence Observation.generate_observation / diagnosis_prob vs /repo", shard=8)
 
 
